@@ -21,7 +21,7 @@ EXTENDS Integers, Sequences, FiniteSets, TLC
 
 CONSTANTS D,          \* the integer domain of elements and keys
           MaxArgs,    \* NewIntSet(values ...int): at most this many arguments
-          MaxCnt,     \* NewIntMap(data): values 1..MaxCnt
+          MaxCnt,     \* NewIntMap(data): values 0..MaxCnt (an entry may be present with the value 0)
           MaxOps,     \* length bound of explored histories (operations after the prefix)
           Prefix,     \* operations (hist records) applied before the exploration starts: values with shared history
           AllowNew    \* FALSE: the explored operations are Insert / Union / Inc / Filter only
@@ -66,7 +66,7 @@ Push(v, h) == /\ vals' = Append(vals, v)
               /\ hist' = Append(hist, h)
 
 ArgSeqs == UNION {[1..n -> D] : n \in 0..MaxArgs}
-MapLits == UNION {[S -> 1..MaxCnt] : S \in SUBSET D}
+MapLits == UNION {[S -> 0..MaxCnt] : S \in SUBSET D}
 
 \* parameterised by their arguments so that the trace specification can reuse them
 DoNewIntSet(args) == Push(NewIntSetOp(args), [op |-> "NewIntSet", args |-> args, a |-> 0, b |-> 0])
